@@ -51,6 +51,7 @@ theorem FTr.wrapForR {s0 : State} {m : EvalM RVal} (hm : FTr s0 m) (h g : State 
       match m s1 with
       | .ok v s2 => .ok v (h s1 s2)
       | .err v msg p t s2 => .err v msg p t (g s1 s2)
+      | .fail (.syn e) s2 => .fail (.syn e) (g s1 s2)
       | other => other) := by
   refine ⟨fun s1 hs1 => ?_⟩
   have h' := hm.run s1 hs1
@@ -58,7 +59,12 @@ theorem FTr.wrapForR {s0 : State} {m : EvalM RVal} (hm : FTr s0 m) (h g : State 
   cases m s1 with
   | ok a s2 => exact fun h' => h'.trans (hh s1 s2)
   | err v msg p t s2 => exact fun h' => h'.trans (hg s1 s2)
-  | fail f s2 => exact id
+  | fail f s2 =>
+    cases f with
+    | syn e => exact fun h' => h'.trans (hg s1 s2)
+    | oof => exact id
+    | unsupported w => exact id
+    | host k => exact id
 
 /-- `loadModule` wrapped by the pop of `evalRequire` -/
 theorem FTr.popTail {s0 : State} {m : EvalM EnvId} (hm : FTr s0 m) :
